@@ -129,4 +129,24 @@ def subChainAdm (T : ITy) (kind : String) (es ss : List Int) (slcs : List (List 
   if es.any (· < 0) || ss.any (· < 0) then false else
   (srcLayout kind es ss).admB T && subChainAdmFrom T (srcLayout kind es ss) slcs
 
+/-! ## the addresses of the elements of a result view
+
+What the `alias` op of the driver prints and the C++ harness computes by walking the result view. -/
+
+/-- all multi-indices inside `es`, row-major -/
+def allIdx : List Int → List (List Int)
+  | [] => [[]]
+  | e :: es => (List.range e.toNat).flatMap (fun (i : Nat) => (allIdx es).map (fun t => Int.ofNat i :: t))
+
+/-- for the first 4096 multi-indices `js` of the result (row-major; none if the result is empty):
+    `offset + mapping(js...)` of the *result* mapping, both `size_t` values -/
+def subAliasM (T : ITy) (r : SubRes) : M (List Int) :=
+  if r.exts.any (· ≤ 0) then pure [] else
+  ((allIdx r.exts).take 4096).mapM (fun js => do
+    let v ← (match r.kind with
+      | "left" => leftOffM T r.exts js
+      | "right" => rightOffM T r.exts js
+      | _ => strideOffM T js r.strs)
+    pure (ITy.u64.wrap (r.off + ITy.u64.wrap v)))
+
 end Mdspan
